@@ -141,6 +141,12 @@ class Sym:
         self.ctx.inputs[name] = v
         return v
 
+    def func(self, name, arity=1):
+        """an arbitrary (uninterpreted, pure) callable Real^arity -> Real"""
+        f = z3.Function(name, *([REAL] * (arity + 1)))
+        from .core import as_real
+        return Builtin(name, lambda I, args, kw: f(*[as_real(a) for a in args]))
+
     def etype(self, kind):
         I = self.I
         if isinstance(kind, ElemType):
